@@ -3,8 +3,9 @@ import Driver.Util
 /-
   Model driver for the `r` lines of C05 (harness/drv_refs.c): buffers whose elements are references — arrays of arrays
   (array_traits.c), arrays of metatype references (meta_reference_traits.c), leaf arrays of harness tokens.
-  Same op lines and output format as the C driver.  S: the bookkeeping of the harness finds nothing illegal
-  (`R legal`), whatever the operation returns.
+  Same op lines and output format as the C driver.  S: the bookkeeping finds nothing illegal (`R legal`), whatever the
+  operation returns; the model's own R is computed here by `judgeRefs` from the model's events and state (it is not
+  a constant), so a model that released something twice or lost a reference would show up as `m_ne_s`.
 -/
 namespace Driver.Refs
 open Mpt Mpt.Refs
@@ -13,6 +14,8 @@ structure RSt where
   m : State := {}
   nh : Nat := 0
   seenLog : Nat := 0
+  live : List Nat := []                              -- S of C05: live leaf tokens
+  illegal : String := ""                             -- first illegal observation (sticky, as in the C harness)
   exact : Bool := false                              -- C04: S = every handle is an independent nested value
   sp : List (Option (List (Option (List Nat)))) := []   -- S of the stage part: per handle, per dimension, the values
   deriving Inhabited
@@ -73,7 +76,71 @@ def tree : Nat → State → List Nat → Option Nat → String
           | .dbl => "D"
         tag ++ "[" ++ " ".intercalate items ++ "]"
 
-def render (st : RSt) (m : State) (verdict ret : String) : RSt × String :=
+/-- references met from the handle table: (buffers in first-visit order with the number of references to each) -/
+def refCounts (m : State) (nh : Nat) : List (Nat × Nat) :=
+  let order := (List.range nh).foldl (fun acc h =>
+    match m.handle h with
+    | some b => reach (fuelOf m) m acc b
+    | none => acc) []
+  order.map fun b =>
+    let fromHandles := ((List.range nh).filter fun h => m.handle h = some b).length
+    let fromElems := (order.map fun c =>
+      match m.buf? c with
+      | some x => (x.elems.filter fun e => e = .arr (some b)).length
+      | none => 0).sum
+    (b, fromHandles + fromElems)
+
+/-- the judgement of the harness on the model's own state and events: token events legal (created once, copied from a
+    live token, destroyed while alive), every live token stored exactly once in a reachable leaf buffer, reference
+    counts of buffers and instances equal to the references that exist, nothing released twice -/
+def judgeRefs (st : RSt) (m : State) (final : Bool) : List Nat × String :=
+  let evs := m.log.drop st.seenLog
+  let (lv, bad) := evs.foldl (fun (acc : List Nat × String) e =>
+    let (lv, bad) := acc
+    if bad ≠ "" then acc else
+    match e with
+    | .init t => if lv.contains t then (lv, s!"init-live:{t}") else (t :: lv, "")
+    | .copy t k => if ¬ lv.contains k then (lv, s!"copy-from-dead:{k}") else if lv.contains t then (lv, s!"copy-live:{t}") else (t :: lv, "")
+    | .fini t => if lv.contains t then (lv.erase t, "") else (lv, s!"fini-dead:{t}")
+    | .unrefDead o => (lv, s!"unref-dead:{o}")
+    | _ => acc) (st.live, st.illegal)
+  if bad ≠ "" then (lv, bad) else
+  let counts := refCounts m st.nh
+  let bufs := counts.map (·.1)
+  let badRef := (List.range counts.length).find? fun i =>
+    match counts[i]? with
+    | some (b, n) => (match m.buf? b with | some x => x.ref ≠ n | none => true)
+    | none => false
+  match badRef with
+  | some i => (lv, s!"buf-refcount:{i}")
+  | none =>
+    let stored := bufs.flatMap fun b => match m.buf? b with
+      | some x => x.elems.filterMap fun e => match e with | .tok t => some t | _ => none
+      | none => []
+    let objRefs (o : Nat) : Nat := (bufs.map fun b => match m.buf? b with
+      | some x => (x.elems.filter fun e => e = .mref (some o)).length
+      | none => 0).sum
+    let badObj := (List.range m.objs.length).find? fun i =>
+      match m.objs[i]? with
+      | some ob => if ob.dead then objRefs (i + 1) ≠ 0 else ob.refs ≠ objRefs (i + 1)
+      | none => false
+    match badObj with
+    | some i =>
+      let dead := (m.objs[i]?.map (·.dead)).getD false
+      (lv, if dead then s!"stored-dead-obj:{i + 1}" else if final then s!"obj-alive-at-end:{i + 1}" else s!"obj-refcount:{i + 1}")
+    | none =>
+      match stored.find? (fun t => ¬ lv.contains t) with
+      | some t => (lv, s!"stored-dead:{t}")
+      | none =>
+        if ¬ stored.Nodup then (lv, "stored-twice")
+        else match lv.find? (fun t => ¬ stored.contains t) with
+          | some t => (lv, if final then s!"alive-at-end:{t}" else s!"live-not-stored:{t}")
+          | none => (lv, "")
+
+def render (st0 : RSt) (m : State) (verdict ret : String) (final : Bool := false) : RSt × String :=
+  let (lv, bad) := judgeRefs st0 m final
+  let st := { st0 with live := lv, illegal := bad }
+  let legal := if bad = "" then "legal" else bad
   let evs := (m.log.drop st.seenLog).map evStr
   let evText := if evs.isEmpty then "-" else ",".intercalate evs
   let hsText := (List.range st.nh).map fun h => s!" h{h}=" ++ tree (fuelOf m + 14) m [] (m.handle h)
@@ -98,7 +165,7 @@ def render (st : RSt) (m : State) (verdict ret : String) : RSt × String :=
             | some vs => "D[" ++ " ".intercalate (vs.map toString) ++ "]") ++ "]")
   let sText := if st.exact then s!"legal ; {verdict} ev=-" ++ specText st.sp else "legal ; *"
   ({ st with m := m, seenLog := m.log.length },
-   s!"R legal | C {verdict} ev={evText}" ++ String.join hsText ++ s!" | I ret={ret} bufs={bufsText} objs={objsText} | S {sText}")
+   s!"R {legal} | C {verdict} ev={evText}" ++ String.join hsText ++ s!" | I ret={ret} bufs={bufsText} objs={objsText} | S {sText}")
 
 def retInt (r : Int) : String × String :=
   if r < 0 then ("refused", match r with
@@ -137,7 +204,7 @@ def step (exact : Bool) (st : RSt) (w : List String) : RSt × String :=
         let st' : RSt := { m := { hs := List.replicate n none }, nh := n, seenLog := 0, exact := exact, sp := List.replicate n none }
         render st' st'.m "ok" "-"
     | none => bad
-  | ["r", "end"] => if st.nh = 0 then bad else render { st with sp := List.replicate st.nh none } (dropAll m st.nh) "ok" "-"
+  | ["r", "end"] => if st.nh = 0 then bad else render { st with sp := List.replicate st.nh none } (dropAll m st.nh) "ok" "-" true
   | "r" :: op :: hs :: args =>
     if st.nh = 0 then bad
     else
